@@ -458,6 +458,7 @@ type caseResult struct {
 	// for the read audit: what the call may touch
 	allowSub   []string
 	allowExact []string
+	allowStat  []string // single paths that may be stat'ed (not opened, not changed)
 	sandbox    string
 }
 
@@ -500,6 +501,11 @@ func runCase(cs caseSpec, w *worker) (res caseResult) {
 		must(err)
 		if cs.State == stRemoved || cs.State == stFile {
 			sb.establish(cs)
+		}
+		if cs.Op == "Put" && cs.State == stRemoved {
+			// Put re-creates a missing database directory with os.MkdirAll (as NewFSTree does
+			// when opening), which looks at the directory's parent before the mkdir
+			res.allowStat = []string{filepath.Dir(sb.root)}
 		}
 		res.target = filepath.Join(sb.root, name)
 		op = func() error {
@@ -866,6 +872,7 @@ func main() {
 		c.Assume("reads outside the root are observed only through what the operation hands back (record content, query results, scanned resources) unless the optional strace audit ran; a read whose result is discarded is not seen by the engine-Q part")
 		c.Assume("archive/zip is run with zipinsecurepath=1 (the toolchain default for portbase's go 1.21 module), i.e. the standard library does not filter entry names")
 		c.Assume("for fstree.Query the error must come from Query() itself: an error delivered later through the iterator is raised after the file-system walk has started and is not a rejection")
+		c.Assume("re-creating a missing database directory is the backend's own business (NewFSTree does it when opening): in the read audit fstree.Put may stat - not open or change - the parent of a missing root, as os.MkdirAll does")
 		c.Assume("a panic of the implementation is counted as an error result (never observed), not as a violation: the property does not speak about panics")
 
 		var specs []caseSpec
